@@ -287,6 +287,9 @@ func runC09(c *Ctx) {
 	// ... and agree on the group size: a leader-assigned group that grows and shrinks (real serviceDiscovery.SetInfo, real
 	// kubernetesHa membership behind the real vBucketDiscovery) is an exact partition after every step
 	runHaGroup(c)
+	// a server older than 5.5.0: after a rebalance the member holds streams for exactly its chunk (every stream of the old
+	// range was closed, the last one too)
+	runLegacy(c, []string{"rebalance"}, 1, 1)
 }
 
 func minInt(a, b int) int {
